@@ -114,27 +114,53 @@ Lemma wit_batch_insert_unique_index :
               (SInsert 0 [i3 3 40 0; i3 4 40 0]).
 Proof. wit_uidx. Qed.
 
-(** update-ignores-unique-index: UPDATE t SET c1 = 10 WHERE c0 = 2, a single row *)
-Lemma wit_update_ignores_unique_index :
+(** ... and a UNIQUE INDEX key: UPDATE t SET c1 = 30 over two rows under CREATE UNIQUE INDEX (c1) *)
+Lemma wit_multirow_update_unique_index :
   c10_witness [t_pk0] [SCreateIndex 1 0 true [1%nat]; SInsert 0 [i3 1 10 0; i3 2 20 0]]
-              (SUpdate 0 [(1%nat, EConst (Some 10))] (Some (PCmpC 0 OEq 2))).
+              (SUpdate 0 [(1%nat, EConst (Some 30))] None).
 Proof. wit_uidx. Qed.
 
-(** append-mode-bulk-transfer-duplicate-pk: four ascending inserts, then INSERT INTO t0 SELECT * FROM t1 *)
-Lemma wit_append_mode_bulk :
-  c10_witness [t_pk0; mk_schema 3 [true; false; false] None [] []]
-              [SInsert 0 [i3 1 0 0]; SInsert 0 [i3 2 0 0]; SInsert 0 [i3 3 0 0]; SInsert 0 [i3 4 0 0];
-               SInsert 1 [i3 2 9 9]]
-              (SInsertSelect 0 1 []).
-Proof. wit_pk. Qed.
+(** Repaired classes: the statement that used to break a constraint is outside every known
+    class now (so [inv_step_thm] covers it) and is rejected with ConstraintViolation. *)
+Definition c10_repaired (schemas : list schema) (ss : list stmt) (s : stmt) : Prop :=
+  Forall created schemas
+  /\ clean (db_init schemas) (ss ++ [s]) = true
+  /\ snd (step (run (db_init schemas) ss) s) = RErrConstraint.
 
-(** composite-key-validated-in-column-order: PRIMARY KEY (c1, c0) (here added by ALTER TABLE so
-    that the state before is reached by a history outside every known class); a second row
-    (1,2,_) is accepted: the validator probes the map with (c0,c1) = (1,2), the map holds (2,1) *)
-Lemma wit_key_column_order :
-  c10_witness [t_plain] [SInsert 0 [i3 1 2 0]; SAddPk 0 [1%nat; 0%nat]]
-              (SInsert 0 [i3 1 2 1]).
-Proof. wit_pk. Qed.
+Ltac rep_tac := (split; [created_tac | split; vm_compute; reflexivity]).
+
+(** was update-ignores-unique-index: UPDATE t SET c1 = 10 WHERE c0 = 2 under a UNIQUE index on c1
+    (IndexData::contains_key now normalises its probe) *)
+Lemma rep_update_unique_index :
+  c10_repaired [t_pk0] [SCreateIndex 1 0 true [1%nat]; SInsert 0 [i3 1 10 0; i3 2 20 0]]
+               (SUpdate 0 [(1%nat, EConst (Some 10))] (Some (PCmpC 0 OEq 2))).
+Proof. rep_tac. Qed.
+
+(** was append-mode-bulk-transfer-duplicate-pk: four ascending inserts, then INSERT INTO t0 SELECT *
+    FROM t1 with an existing key (the append-mode shortcut is gone) *)
+Lemma rep_append_mode_bulk :
+  c10_repaired [t_pk0; mk_schema 3 [true; false; false] None [] []]
+               [SInsert 0 [i3 1 0 0]; SInsert 0 [i3 2 0 0]; SInsert 0 [i3 3 0 0]; SInsert 0 [i3 4 0 0];
+                SInsert 1 [i3 2 9 9]]
+               (SInsertSelect 0 1 []).
+Proof. rep_tac. Qed.
+
+(** was composite-key-validated-in-column-order: PRIMARY KEY (c1, c0), a second row (1,2,_)
+    (RowValidator now builds its probe keys in declaration order) *)
+Lemma rep_key_column_order :
+  c10_repaired [mk_schema 3 [true; true; false] (Some [1%nat; 0%nat]) [] []]
+               [SInsert 0 [i3 1 2 0]; SInsert 0 [i3 2 1 0]]
+               (SInsert 0 [i3 1 2 1]).
+Proof. rep_tac. Qed.
+
+Lemma c10_repaired_holds schemas ss s :
+  c10_repaired schemas ss s ->
+  Inv (fst (step (run (db_init schemas) ss) s)) /\ snd (step (run (db_init schemas) ss) s) = RErrConstraint.
+Proof.
+  intros [Hc [Hcl Hr]]. split; [|exact Hr].
+  pose proof (inv_reachable_thm schemas (ss ++ [s]) Hc Hcl) as HI.
+  unfold run in HI. rewrite fold_left_app in HI. exact HI.
+Qed.
 
 (** create-unique-index-over-duplicates *)
 Lemma wit_create_unique_index :
